@@ -56,6 +56,10 @@ func (propC19) Gen(r *Rand) *Plan {
 			p.Setup = []Op{{Op: "SetExpression", S: g.Top()}}
 			tp := TaskPlan{Sets: []VarSet{g.GenVarSet(r), g.GenVarSet(r), g.GenVarSet(r)}}
 			for i, n := 0, r.Range(3, 10); i < n; i++ {
+				if r.Bool(0.25) && len(g.VarSeq) > 0 {
+					v := GenValue(r, g.Vars[strings.ToUpper(g.VarSeq[0])])
+					tp.Ops = append(tp.Ops, Op{Op: "edit", Set: r.Range(0, 2), I: r.Intn(3), S: g.VarSeq[r.Intn(len(g.VarSeq))], V: &v})
+				}
 				tp.Ops = append(tp.Ops, Op{Op: "eval", Set: r.Range(-1, 2)})
 			}
 			p.Tasks = []TaskPlan{tp}
@@ -71,6 +75,10 @@ func (propC19) Gen(r *Rand) *Plan {
 				tp.Sets = append(tp.Sets, vs)
 			}
 			for i, n := 0, r.Range(3, 10); i < n; i++ {
+				if r.Bool(0.3) && len(g.VarSeq) > 0 {
+					// the caller edits its own map in place between two renderings
+					tp.Ops = append(tp.Ops, Op{Op: "edit", Set: r.Range(0, 2), I: r.Intn(4), S: g.VarSeq[r.Intn(len(g.VarSeq))], S2: r.Pick([]string{"", "edited", "Z"})})
+				}
 				tp.Ops = append(tp.Ops, Op{Op: "eval", Set: r.Range(-1, 2)})
 			}
 			p.Tasks = []TaskPlan{tp}
@@ -188,14 +196,34 @@ func opsManager(name string) variants.IVariantOperations {
 }
 
 func buildVars(vs VarSet) *variables.VariableCollection {
+	return buildVarsWith(vs, sort.Strings)
+}
+
+// buildVarsWith builds the collection of a variable set: in the layout given by
+// its "#order" entry when there is one (extra and case-duplicate names get a
+// marker value), otherwise sorted by name.
+func buildVarsWith(vs VarSet, sortNames func([]string)) *variables.VariableCollection {
+	c := variables.NewVariableCollection()
+	if o, ok := vs["#order"]; ok && o.S != "" {
+		for _, n := range splitComma(o.S) {
+			if n == "" {
+				continue
+			}
+			if v, ok := vs[n]; ok {
+				c.Add(variables.NewVariable(n, v.ToVariant()))
+			} else {
+				c.Add(variables.NewVariable(n, variants.VariantFromInteger(-777)))
+			}
+		}
+		return c
+	}
 	names := make([]string, 0, len(vs))
 	for n := range vs {
 		names = append(names, n)
 	}
-	sort.Strings(names)
-	c := variables.NewVariableCollection()
+	sortNames(names)
 	for _, n := range names {
-		if n == "" {
+		if n == "" || n == "#order" {
 			continue
 		}
 		c.Add(variables.NewVariable(n, vs[n].ToVariant()))
@@ -203,9 +231,26 @@ func buildVars(vs VarSet) *variables.VariableCollection {
 	return c
 }
 
+func splitComma(s string) []string {
+	var out []string
+	cur := ""
+	for _, ch := range s {
+		if ch == ',' {
+			out = append(out, cur)
+			cur = ""
+		} else {
+			cur += string(ch)
+		}
+	}
+	return append(out, cur)
+}
+
 func buildMap(vs VarSet) map[string]string {
 	m := map[string]string{}
 	for k, v := range vs {
+		if k == "#order" {
+			continue
+		}
 		// maps whose keys differ by case only are kept out of schedule-exploring
 		// runs (unowned map iteration order, DESIGN §1)
 		dup := false
@@ -363,22 +408,9 @@ func useSeparate(kind, text string, vs VarSet, ops string, slot *c19Slot) {
 	}
 }
 
-// buildVarsNoSort is buildVars without the sort package (task-safe); insertion
-// order is made deterministic by a simple insertion sort on the names.
+// buildVarsNoSort is buildVars without the sort package (task-safe).
 func buildVarsNoSort(vs VarSet) *variables.VariableCollection {
-	names := make([]string, 0, len(vs))
-	for n := range vs {
-		names = append(names, n)
-	}
-	sortStrings(names)
-	c := variables.NewVariableCollection()
-	for _, n := range names {
-		if n == "" {
-			continue
-		}
-		c.Add(variables.NewVariable(n, vs[n].ToVariant()))
-	}
-	return c
+	return buildVarsWith(vs, sortStrings)
 }
 
 func (propC19) Exec(p *Plan, x *Ctx) *Outcome {
@@ -916,15 +948,8 @@ func c19SequentialRepeat(p *Plan, run *Run, out *Outcome) *Outcome {
 				calc.SetVariantOperations(opsManager(ops))
 				calc.SetAutoVariables(false)
 				setupErr = calc.SetExpression(text)
-				names := make([]string, 0, len(sets[0]))
-				for n := range sets[0] {
-					names = append(names, n)
-				}
-				sort.Strings(names)
-				for _, n := range names {
-					if n != "" {
-						calc.DefaultVariables().Add(variables.NewVariable(n, sets[0][n].ToVariant()))
-					}
+				for _, v := range buildVars(sets[0]).GetAll() {
+					calc.DefaultVariables().Add(v)
 				}
 			}
 		}()
@@ -1001,10 +1026,125 @@ func c19SequentialRepeat(p *Plan, run *Run, out *Outcome) *Outcome {
 			}()
 			return s.describe()
 		}
+		// copies of the live variable objects, for the fresh reference after the caller edited them
+		liveColl := func(k int) *variables.VariableCollection {
+			c := variables.NewVariableCollection()
+			for _, v := range colls[k].GetAll() {
+				c.Add(variables.NewVariable(v.Name(), v.Value().Clone()))
+			}
+			return c
+		}
+		liveMap := func(k int) map[string]string {
+			m := map[string]string{}
+			for kk, vv := range maps[k] {
+				m[kk] = vv
+			}
+			return m
+		}
+		edited := map[int]bool{}
+		evalFreshLive := func(k int) string {
+			var s c19Slot
+			run.ResetOpSteps()
+			func() {
+				defer func() {
+					if pv := recover(); pv != nil {
+						s.panicV = pv
+					}
+					s.done = true
+				}()
+				if isTmpl {
+					t := mustache.NewMustacheTemplate()
+					t.SetAutoVariables(false)
+					if err := t.SetTemplate(text); err != nil {
+						s.err = err
+						return
+					}
+					s.str, s.err = t.EvaluateWithVariables(liveMap(k))
+					return
+				}
+				c := calculator.NewExpressionCalculator()
+				c.SetVariantOperations(opsManager(ops))
+				c.SetAutoVariables(false)
+				if err := c.SetExpression(text); err != nil {
+					s.err = err
+					return
+				}
+				s.res, s.err = c.EvaluateUsingVariables(liveColl(k))
+			}()
+			return s.describe()
+		}
 		for i, o := range tp.Ops {
 			k := setIdx(o.Set)
+			if o.Op == "edit" {
+				if k < 0 {
+					continue
+				}
+				// the caller changes its own variable set in place between two evaluations
+				if isTmpl {
+					m := maps[k]
+					switch o.I % 4 {
+					case 0: // same size, a key respelled in another letter case
+						if v, ok := m[o.S]; ok {
+							delete(m, o.S)
+							n := strings.ToUpper(o.S)
+							if n == o.S {
+								n = strings.ToLower(o.S)
+							}
+							if n != o.S {
+								m[n] = v + o.S2
+							} else {
+								m[o.S] = v
+							}
+						}
+					case 1:
+						if _, ok := m[o.S]; ok {
+							m[o.S] = o.S2
+						}
+					case 2:
+						delete(m, o.S)
+					default:
+						dup := false
+						for kk := range m {
+							if strings.EqualFold(kk, o.S) {
+								dup = true
+							}
+						}
+						if !dup {
+							m[o.S] = o.S2
+						}
+					}
+					before[k] = snapshotMap(m)
+				} else {
+					c := colls[k]
+					switch o.I % 3 {
+					case 0:
+						if v := c.FindByName(o.S); v != nil && o.V != nil {
+							v.SetValue(o.V.ToVariant())
+						}
+					case 1: // same length, other layout: remove and add again at the end
+						if v := c.FindByName(o.S); v != nil {
+							val := v.Value()
+							c.RemoveByName(o.S)
+							c.Add(variables.NewVariable(o.S, val))
+						}
+					default:
+						if v := c.FindByName(o.S); v != nil {
+							v.SetValue(variants.EmptyVariant())
+						}
+					}
+					before[k] = snapshotVars(c)
+				}
+				edited[k] = true
+				delete(refs, k)
+				out.Probes["variables_edited_between_evaluations"]++
+				continue
+			}
 			if _, ok := refs[k]; !ok {
-				refs[k] = evalOne(k, true)
+				if k >= 0 && edited[k] {
+					refs[k] = evalFreshLive(k)
+				} else {
+					refs[k] = evalOne(k, true)
+				}
 			}
 			got := evalOne(k, false)
 			evals++
